@@ -70,7 +70,7 @@ fn file_name(rng: &mut Rng, idx: usize) -> Vec<u8> {
     v
 }
 
-fn files_field(rng: &mut Rng, nfiles: usize, max_len: usize) -> String {
+pub(crate) fn files_field(rng: &mut Rng, nfiles: usize, max_len: usize) -> String {
     if nfiles == 0 {
         return "-".into();
     }
